@@ -305,6 +305,53 @@ def check_handlers(ix, rep, cls, hs):
     return n
 
 
+def _shift_table(rep, hs):
+    """{helper name: d} -- by how much each interval helper moves the requested samples, *derived* from the helper (R-SHIFT): the helper's
+    output set is compared with {x+d} clipped to the signal for d in {0,-1,+1} by linear arithmetic over all n, b, e"""
+    if getattr(rep, '_shift_table', None) is not None:
+        return rep._shift_table
+    from sa.rules import ivshift
+    if not ivshift.self_test():
+        raise AnalysisError('R-SHIFT self-test failed')
+    table = {}
+    for name, want in (('unary', 0), ('prev', -1), ('next', 1)):
+        f = resolve_alias(hs, name)
+        if f is None:
+            raise AnalysisError('explanation helper explain_%s vanished' % name)
+        rep.analysed(f)
+        try:
+            d, dj = ivshift.classify(f.node)
+        except ivshift.Unknown as e:
+            raise AnalysisError('%s: interval helper not understood (%s)' % (f.where, e))
+        slot = 'explainer:helper:%s' % f.node.name
+        if d == want:
+            table[f.node.name] = d
+            rep.ok('R-SHIFT', f.module.rel, f.qual, slot, 'operand samples = requested samples %+d, clipped to the signal (all n, b, e)' % d if d else 'passes the requested samples on', f.node.lineno)
+        else:
+            w = ivshift.witness(dj, want)
+            side = ivshift.equivalent(dj, want)
+            ex = ''
+            if w:
+                n_, b_, e_, x_, impl = w
+                ex = ': for %d samples and the request [%d,%d] operand sample %d is %s' % (n_, b_, e_, x_, 'asked for although the value does not read it' if impl else
+                                                                                          'read by the value (sample %d of the result reads it) but not asked for' % (x_ - want))
+            rep.fail('R-SHIFT', f.module.rel, f.qual, slot, 'the helper does not map the requested samples S to {x%+d | x in S} within the signal (%s)%s; a sample the violation depends on '
+                     'and that is not reported can be re-assigned so that the violation disappears' % (want, 'misses samples' if side == 'too-few' else 'adds samples', ex), f.node.lineno)
+            table[f.node.name] = want
+    fb = resolve_alias(hs, 'binary')
+    if fb is None:
+        raise AnalysisError('explanation helper explain_binary vanished')
+    rb = [s for s in fb.node.body if isinstance(s, ast.Return)]
+    p2 = fb.node.args.args[-1].arg
+    if len(rb) == 1 and isinstance(rb[0].value, ast.Tuple) and [ast.unparse(e) for e in rb[0].value.elts] == [p2, p2]:
+        rep.ok('R-SHIFT', fb.module.rel, fb.qual, 'explainer:helper:%s' % fb.node.name, 'passes the requested samples on to both operands', fb.node.lineno)
+    else:
+        rep.fail('R-SHIFT', fb.module.rel, fb.qual, 'explainer:helper:%s' % fb.node.name, 'explain_binary does not hand the requested intervals to both operands', fb.node.lineno)
+    table[fb.node.name] = 0
+    rep._shift_table = table
+    return table
+
+
 def check_footprints(ix, rep, cls, hs, rule='R-EXPL-ALL'):
     """a pointwise operator whose value at t reads its operand at offsets S (from the operator summary of the offline handler: prev {-1}, next {+1},
     rise/fall {-1, 0}, everything else {0}) must ask its operand to explain every offset in S -- a sample the value depends on and that is not
@@ -375,7 +422,7 @@ def check_footprints(ix, rep, cls, hs, rule='R-EXPL-ALL'):
                     for j, e_ in enumerate(tg.elts):
                         if isinstance(e_, ast.Name):
                             defs[e_.id] = (gname, j)
-        SHIFT = {'explain_unary': 0, 'explain_binary': 0, 'explain_prev': -1, 'explain_next': 1}
+        SHIFT = _shift_table(rep, hs)
         got = {}
         other = set()
         for c in ast.walk(f.node):
